@@ -138,9 +138,9 @@ theorem mem_liveOf {d : SignalData} {c : Conn} (h : c ∈ liveOf (some d)) :
 
 /-! ### the obligation -/
 
-theorem sim_next {m : State} {s : SState} {fid idx : Nat} {eg : Nat × Nat} {snap : List Nat} {K : MStack}
-    (h : Sim m s (((fid, idx), (eg, snap)) :: K)) :
-    StepRel machine Sim m s fid eg K (machine.next m fid idx) (Spec.machine.next s eg snap) := by
+theorem sim_next {m : State} {s : SState} {fid : Nat} {pos : Option Nat} {eg : Nat × Nat} {snap : List Nat} {K : MStack}
+    (h : Sim m s (((fid, pos), (eg, snap)) :: K)) :
+    StepRel machine Sim m s fid eg K (machine.next m fid pos) (Spec.machine.next s eg snap) := by
   obtain ⟨e, g⟩ := eg
   have hc := h.cur
   cases hfr : m.frames with
@@ -175,6 +175,14 @@ theorem sim_next {m : State} {s : SState} {fid idx : Nat} {eg : Nat × Nat} {sna
         have hea : s.eAlive e = true := by rw [h.abs.eAlive]; exact halive
         have hlive := h.abs.live e g
         rw [hdd] at hlive
+        cases pos with
+        | none =>
+          -- `begin == end`: the snapshot was empty
+          have : snap = [] := hLI
+          subst this
+          simp [hinv, hea, nextLive, StepRel]
+        | some idx =>
+        have hLI : LI d.slots idx snap := hLI
         simp only [hinv, Bool.false_eq_true, if_false, hdata, hdd, hea, if_true, hlive]
         cases hn : nextConnected d.slots idx with
         | none =>
@@ -215,6 +223,7 @@ theorem sim_next {m : State} {s : SState} {fid idx : Nat} {eg : Nat × Nat} {sna
             intro _ d' hd'
             rw [hdd] at hd'
             cases hd'
+            show LI d.slots (j + 1) rest
             unfold LI
             exact hflt.2.symm ▸ rfl
 
